@@ -40,7 +40,7 @@ def ykh(args, timeout=3000, cwd=None):
 def tlc_file(workdir, module, cfg, outfile, workers=1, timeout=3000, extra=()):
     """TLC with stdout to a file (the NodeColl behaviours are large)."""
     meta = os.path.join(workdir, "meta-" + os.path.basename(cfg))
-    cmd = ["java", "-Xmx3g", "-Xss64m", "-XX:+UseParallelGC", "-cp", C.JAR, "tlc2.TLC", "-workers", str(workers), "-metadir", meta,
+    cmd = ["java", "-Xmx3g", "-Xss64m", "-XX:+UseParallelGC", "-Djava.io.tmpdir=" + workdir, "-cp", C.JAR, "tlc2.TLC", "-workers", str(workers), "-metadir", meta,
            "-config", cfg] + list(extra) + [module]
     try:
         with open(outfile, "w") as f:
